@@ -39,47 +39,47 @@ CHECKS["C07"] = ("exploration",
   "DESIGN.md section 4, C07 and Appendix B")
 CHECKS["C01"] = ("exploration",
   "model-driven (late-bound) operation sequences generated by proptest with reopen points in all three close modes + sweep driver (reopen after every position x every mode) + directed needle cases; round-trip oracle: API snapshot before close == snapshot after Package::open(saved bytes)",
-  "Generated search over histories x values x close points: 24,000 sequences + 600 sweeps (x up to 27 variants) + 41 directed cases (each of 26 code pages with strings from its repertoire, package types, long-string boundary lengths, integer boundaries) in the quick tier; 300,000 / 8,000 in thorough. Crash-after-flush is the FlushAndCopy close mode (bytes copied from the live medium when flush returns).",
+  "Generated search over histories x values x close points: 60,000 sequences + 1,500 sweeps (x up to 27 variants) + 41 directed cases (each of 26 code pages with strings from its repertoire, package types, long-string boundary lengths, integer boundaries) in the quick tier; 600,000 / 15,000 in thorough. Crash-after-flush is the FlushAndCopy close mode (bytes copied from the live medium when flush returns).",
   "Trusted: the harness observer (public API only) and the shared-buffer medium. Torn writes in the middle of a flush are outside the statement.",
   "DESIGN.md section 4, C01")
 CHECKS["C03"] = ("exploration",
   "model-based stateful testing: proptest-generated late-bound operation sequences applied to the package and to an in-memory relational model, full snapshot comparison after every step; bounded-exhaustive enumeration of all op sequences up to depth 4/5 over a 12-op alphabet",
-  "Exhaustive for all sequences of length <= 4 (5 in thorough) over 12 concrete ops (insert single/batch, update value/all/key, key collision, delete one/all/by value, select with projection, reopen) on a two-column table with a frame table; 12,000 (200,000) generated sequences with conditions, projections, composite/nullable/string keys and reopen points.",
+  "Exhaustive for all sequences of length <= 4 (5 in thorough) over 12 concrete ops (insert single/batch, update value/all/key, key collision, delete one/all/by value, select with projection, reopen) on a two-column table with a frame table; 60,000 (600,000) generated sequences with conditions, projections, composite/nullable/string keys and reopen points.",
   "Trusted: the reference model and reference evaluator. Conditions are generated so that their truth value is specified (comparisons between a column and a literal of its type, null-guarded).",
   "DESIGN.md section 4, C03")
 CHECKS["C05"] = ("exploration",
   "stateful invariant checking: proptest-generated operation sequences weighted to key-assigning updates, batch inserts and delete/insert cycles; invariant (unique keys, ascending order, valid cells) evaluated on the API-reported schema and rows after every step and after every reopen",
-  "16,000 (200,000) generated histories; the invariant needs no model, only what the API returns.",
+  "80,000 (800,000) generated histories; the invariant needs no model, only what the API returns.",
   "Trusted: the reference validity predicate (model.rs). A null read back in a non-nullable string column counts as the empty string.",
   "DESIGN.md section 4, C05")
 CHECKS["C08"] = ("exploration",
   "proptest-generated operation sequences; the bytes saved after every prefix (flush on the live package, every close mode, and fresh-package prefix replay) are decoded by an independent MSI decoder and compared differentially with the API snapshot; pool reference counts recomputed from all table cells",
-  "5,000 (100,000) histories with per-step decoding plus 800 (10,000) prefix sweeps; thorough adds the reference-count cap family (> 65,535 references to one string).",
+  "25,000 (250,000) histories with per-step decoding plus 4,000 (40,000) prefix sweeps; thorough adds the reference-count cap family (> 65,535 references to one string).",
   "Trusted: the independent decoder (fmt.rs, self-tested against literal fixtures) and the cfb crate as a named-byte-stream store. Only the column type-word bits the format description fixes are compared (size, string, nullable, key, localizable, valid).",
   "DESIGN.md section 4, C08")
 CHECKS["C10"] = ("exploration",
   "proptest-generated sequences of summary setters/clearers/code-page switches/reopens against a reference record; the saved summary stream is parsed by a strict independent MS-OLEPS parser and compared by property id",
-  "20,000 (300,000) generated sequences; every case ends with a save and reopen. Two oracles: getters vs model (immediately, before close, after reopen) and independent strict parse of the raw stream (alignment, bounds, typed values, contiguity, exact section size).",
+  "100,000 (1,000,000) generated sequences; every case ends with a save and reopen. Two oracles: getters vs model (immediately, before close, after reopen) and independent strict parse of the raw stream (alignment, bounds, typed values, contiguity, exact section size).",
   "Trusted: the independent property-set parser and the code-page oracle. Strings with unrepresentable characters are only checked for no panic / well-formed stream / other properties intact.",
   "DESIGN.md section 4, C10")
 CHECKS["C11"] = ("exploration",
   "model-based stateful testing of the stream interface: proptest-generated sequences over adversarial name classes and content sizes, model keyed by the container's name-comparison class of the independently packed name; raw root entries cross-checked through the container after each save",
-  "40,000 (400,000) generated sequences plus a write/reopen/read/remove cycle for each of ~80 fixed names (limit lengths 61/62/63, packing ranges, table marker, path separators, NUL, case variants, internal stream names).",
+  "120,000 (1,200,000) generated sequences plus a write/reopen/read/remove cycle for each of ~80 fixed names (limit lengths 61/62/63, packing ranges, table marker, path separators, NUL, case variants, internal stream names).",
   "Trusted: the independent name packing in fmt.rs (fixtures from the format notes) and cfb's documented comparison rule. has_stream is asserted only for well-formed names.",
   "DESIGN.md section 4, C11")
 CHECKS["C12"] = ("exploration",
   "differential testing against a reference query executor: proptest-generated select trees (filters, projections, inner/left joins, joins of joins and of sub-selects, injected unknown names) x generated small table contents with nulls",
-  "60,000 (600,000) generated (query, data) pairs, depth 3 (4). The reference executor implements the documented naming rule, nested-loop order, null padding and nullability, and says which queries must be rejected.",
+  "200,000 (2,000,000) generated (query, data) pairs, depth 3 (4). The reference executor implements the documented naming rule, nested-loop order, null padding and nullability, and says which queries must be rejected.",
   "Trusted: the reference executor and evaluator. Queries that refer to a duplicated column name (plain self-joins) are skipped: resolution is undocumented.",
   "DESIGN.md section 4, C12 and Appendix B")
 CHECKS["C06"] = ("exploration",
   "proptest-generated column lists over every builder option (70 % coerced into the representable core, 30 % free); round-trip oracle through save/reopen plus differential decoding of _Columns/_Validation with the independent decoder; positive clause for the representable core",
-  "30,000 (300,000) generated table definitions of 1..32 columns, all three close modes.",
+  "100,000 (1,000,000) generated table definitions of 1..32 columns, all three close modes.",
   "Trusted: the independent decoder; the representable-core predicate (in_core) only says what must be accepted, refusal is never demanded outside the clearly unrepresentable set.",
   "DESIGN.md section 4, C06")
 CHECKS["C04"] = ("exploration",
   "proptest-generated valid prefixes followed by one invalid call from a 24-kind catalogue (late-bound to the reached state); metamorphic oracle: snapshot, reopened snapshot and independently decoded string pool are identical before and after every call that returns Err",
-  "12,000 (150,000) generated (state, invalid call) pairs; every catalogue entry is exercised hundreds of times per quick run (see classes in the evidence).",
+  "60,000 (600,000) generated (state, invalid call) pairs; every catalogue entry is exercised hundreds of times per quick run (see classes in the evidence).",
   "Trusted: the observer and the independent decoder. Calls that unexpectedly return Ok are left to C06/C07/C20.",
   "DESIGN.md section 4, C04")
 CHECKS["C20"] = ("exploration",
@@ -89,17 +89,17 @@ CHECKS["C20"] = ("exploration",
   "DESIGN.md section 4, C20")
 CHECKS["C02"] = ("exploration",
   "format-level generation (proptest strategies over an abstract database) written by an independent encoder of the MSI format; differential oracle: Package::open + API snapshot == abstract database; then API changes, save, and independent decoding of the result",
-  "3,000 (100,000) generated databases covering both reference widths, holes, duplicates, over-counts, long strings, references above 65,535, all code-page ids including 0, up to 32 columns in any order, width-1 integers, unsorted rows, absent _Validation, arbitrary property-set layouts, all CLSIDs (feature counts in the evidence).",
+  "20,000 (200,000) generated databases covering both reference widths, holes, duplicates, over-counts, long strings, references above 65,535, all code-page ids including 0, up to 32 columns in any order, width-1 integers, unsorted rows, absent _Validation, arbitrary property-set layouts, all CLSIDs (feature counts in the evidence).",
   "Trusted: the independent encoder/decoder (fmt.rs, enc.rs; round-trip self-tests and literal fixtures) and the cfb crate. Only well-formed inputs are generated.",
   "DESIGN.md section 4, C02")
 CHECKS["C16"] = ("exploration",
   "proptest-generated read-only sessions on library-written, foreign (independently encoded) and signed packages over a counting medium; oracle: zero write calls after every call and after each of the three close modes, bytes identical",
-  "20,000 (200,000) sessions; sources come from the C01 sequence generator and the C02 database generator.",
+  "60,000 (600,000) sessions; sources come from the C01 sequence generator and the C02 database generator.",
   "Trusted: the counting medium (harness-side Read+Write+Seek wrapper).",
   "DESIGN.md section 4, C16")
 CHECKS["C09"] = ("exploration",
   "structure-aware fuzzing with proptest: valid databases from the independent encoder + format-level corruption operators, raw bytes and byte edits; in-process battery (every read and mutating operation + flush) as oracle with panic capture by location, deterministic I/O-call budget and a counting allocator; thorough adds coverage-guided libFuzzer targets with the same battery and an FFI worker process",
-  "8,000 structured corruptions + 3,000 raw cases in the quick tier (200,000 / 100,000 in thorough); per-operator counts in the evidence. If the process itself dies, the check script replays the cases that were in flight one per process and reports the one that reproduces the death.",
+  "16,000 structured corruptions + 6,000 raw cases + 400 FFI worker runs in the quick tier (200,000 / 100,000 / 5,000 in thorough); per-operator counts in the evidence. If the process itself dies, the check script replays the cases that were in flight one per process and reports the one that reproduces the death.",
   "Trusted: panic hook + catch_unwind, the counting medium and allocator. The cfb dependency is built without its own debug assertions (they fire on malformed containers and abort through lock poisoning; they are the dependency's). A pure CPU loop would be a watchdog exit 2.",
   "DESIGN.md section 4, C09")
 CHECKS["C15"] = ("fault_enumeration",
